@@ -899,12 +899,11 @@ def evaluate__apply(self: XPathFunction, context: ta.ContextType = None) \
     func = self.get_argument(context, required=True, cls=XPathFunction)
     array_ = self.get_argument(context, index=1, required=True, cls=XPathArray)
 
-    try:
-        return func(*array_.items(context), context=context)
-    except ElementPathTypeError as err:
-        if err.code is None or not err.code.endswith(('XPST0017', 'XPTY0004')):
-            raise
-        raise self.error('FOAP0001') from None
+    items = array_.items(context)
+    if func.arity != len(items):
+        msg = "the function has arity {}, the array has {} members"
+        raise self.error('FOAP0001', msg.format(func.arity, len(items)))
+    return func(*items, context=context)
 
 
 @method(function('parse-ietf-date', nargs=1,
